@@ -3,6 +3,7 @@ package encrep
 import (
 	"fmt"
 	"reflect"
+	"strings"
 
 	"github.com/hashicorp/eventlogger"
 	"github.com/hashicorp/eventlogger/filters/encrypt"
@@ -313,6 +314,45 @@ func RunTaggable(policyFile string, seed int64) (*Report, error) {
 			rep.mm(Mismatch{Props: []string{"C09"}, What: "secret fields of nested structs", Vector: vec, Expected: "[REDACTED]", Observed: op.Meta.Owner + "," + op.List[0].Owner})
 		}
 	}
+	// IgnoreTypes names types, not shapes: listing a named slice / map / bytes type must not exempt plain values that
+	// merely share its underlying type, and listing an interface-like or unrelated type exempts nothing
+	type publicLabels []string
+	type publicAttrs map[string]interface{}
+	type publicBlob []byte
+	type namedPayload struct {
+		Labels  []string `class:"secret"`
+		Tokens  [][]byte `class:"sensitive"`
+		Raw     []byte   `class:"secret"`
+		Attrs   map[string]interface{}
+		Public  publicLabels
+		PubAttr publicAttrs
+	}
+	for _, ig := range [][]reflect.Type{
+		{reflect.TypeOf(publicLabels{})}, {reflect.TypeOf(publicAttrs{})}, {reflect.TypeOf(publicBlob{})},
+		{reflect.TypeOf(publicLabels{}), reflect.TypeOf(publicAttrs{}), reflect.TypeOf(publicBlob{}), reflect.TypeOf(&ign{})},
+	} {
+		rep.Vectors++
+		rep.Runs++
+		c := fmt.Sprintf("CANARY-named-%d-%d", seed, len(ig))
+		in := &namedPayload{Labels: []string{c + "-l1", c + "-l2"}, Tokens: [][]byte{[]byte(c + "-t1")}, Raw: []byte(c + "-raw"),
+			Attrs: map[string]interface{}{"k": c + "-attr", "n": 7}, Public: publicLabels{"pub"}, PubAttr: publicAttrs{"p": "pub"}}
+		f := &encrypt.Filter{Wrapper: w, IgnoreTypes: ig}
+		out, perr, pan := process(f, &eventlogger.Event{Type: "t", Payload: in, Formatted: map[string][]byte{}})
+		vec := fmt.Sprintf("IgnoreTypes=%v, payload with plain []string / [][]byte / []byte / map fields", ig)
+		if pan != nil || perr != nil || out == nil {
+			rep.mm(Mismatch{Props: []string{"C09"}, What: "Process with named types in IgnoreTypes", Vector: vec, Expected: "forwarded", Observed: fmt.Sprintf("panic=%v err=%v", pan, perr)})
+			continue
+		}
+		op, ok := out.Payload.(*namedPayload)
+		if !ok {
+			rep.mm(Mismatch{Props: []string{"C10"}, What: "dynamic type of the forwarded payload", Vector: vec, Expected: "*namedPayload", Observed: reflect.TypeOf(out.Payload).String()})
+			continue
+		}
+		dump := fmt.Sprintf("%q %q %q %v", op.Labels, op.Tokens, op.Raw, op.Attrs)
+		if strings.Contains(dump, c) {
+			rep.mm(Mismatch{Props: []string{"C09"}, What: "classified / unclassified values of plain types forwarded in plaintext because IgnoreTypes lists a named type with the same underlying type", Vector: vec, Expected: "no canary readable", Observed: dump})
+		}
+	}
 	// rotation payloads are consumed, never forwarded
 	rep.Vectors++
 	rep.Runs++
@@ -322,5 +362,6 @@ func RunTaggable(policyFile string, seed int64) (*Report, error) {
 		rep.mm(Mismatch{Props: []string{"C09"}, What: "key-rotation payload must be consumed", Vector: "rotation payload", Expected: "(nil, nil)", Observed: fmt.Sprintf("panic=%v err=%v forwarded=%v", pan, perr, out != nil)})
 	}
 	curTags = nil
+	reportAliasing(rep)
 	return rep, nil
 }
